@@ -249,13 +249,15 @@ Qed.
 Definition selectable (k : cls) : Prop := k = CGrid \/ k = COneD \/ k = CPeriodic.
 
 (* what the class's constructor requires of the selected rows (besides existing) *)
-Definition extra_ok (k : cls) (g : state) (l : list nat) : Prop :=
+Definition no_lattice (g : state) : Prop := match s_extra g with XLattice (_ :: _) => False | _ => True end.
+
+Definition extra_ok (cfg : config) (k : cls) (g : state) (l : list nat) : Prop :=
   match k with
   | COneD => match s_extra g with
              | XDomain lo hi => l <> [] /\ forall i, In i l -> in_domain lo hi (nth i (s_pts g) []) = true
              | _ => True
              end
-  | CPeriodic => l <> []
+  | CPeriodic => l <> [] \/ (periodic_empty_ok cfg = true /\ no_lattice g)
   | _ => True
   end.
 
@@ -269,8 +271,9 @@ Definition carried (k : cls) (g : state) : extra :=
 Lemma is_nil_false {A} (l : list A) : l <> [] -> is_nil l = false.
 Proof. destruct l; [congruence | reflexivity]. Qed.
 
-Lemma build_ok k g l : selectable k -> extra_ok k g l ->
-  build k g l = OSel k (map (fun i => nth i (public k g) []) l) (map (fun i => nth i (s_wts g) 0) l) (carried k g).
+Lemma build_ok cfg k g l : selectable k -> extra_ok cfg k g l ->
+  build (periodic_empty_ok cfg) k g l =
+    OSel k (map (fun i => nth i (public k g) []) l) (map (fun i => nth i (s_wts g) 0) l) (carried k g).
 Proof.
   intros [-> | [-> | ->]] He; unfold build, carried, extra_ok in *.
   - reflexivity.
@@ -279,13 +282,17 @@ Proof.
     replace (forallb _ _) with true; [reflexivity|].
     symmetry. apply forallb_forall. intros p Hp. apply in_map_iff in Hp as [i [<- Hi]].
     cbn [public]. apply Hdom, Hi.
-  - rewrite (is_nil_false _ He). reflexivity.
+  - destruct He as [He|[Hpe Hnl]].
+    + rewrite (is_nil_false _ He). cbn [andb]. destruct (s_extra g); reflexivity.
+    + rewrite Hpe. unfold no_lattice in Hnl.
+      destruct (s_extra g) as [| |[|v L]]; cbn [is_nil andb negb]; try rewrite andb_false_r; try reflexivity.
+      destruct Hnl.
 Qed.
 
 Lemma getitem_spec_lemma cfg k g ix l :
   selectable k -> sel_spec (length (s_wts g)) ix = Some l ->
   (forall i, ix = INpInt i -> npint_flag cfg k = true) ->
-  extra_ok k g l ->
+  extra_ok cfg k g l ->
   getitem cfg k g ix =
     OSel k (map (fun i => nth i (public k g) []) l) (map (fun i => nth i (s_wts g) 0) l) (carried k g).
 Proof.
@@ -317,6 +324,28 @@ Lemma getitem_npint_refuted_lemma cfg k g i j :
 Proof.
   intros Hk Hf Hr. split; [cbn [sel_spec]; rewrite Hr; reflexivity|].
   unfold getitem, select. rewrite Hr, Hf. destruct Hk as [-> | [-> | ->]]; reflexivity.
+Qed.
+
+(* pinned PeriodicGrid without lattice vectors: an empty selection (grid[0:0], all-false mask, empty index array) raises,
+   although such a grid "behaves identically to the Grid base class", where the empty selection is an empty grid;
+   with lattice vectors the constructor rejects zero points on every configuration *)
+Lemma periodic_empty_refuted_lemma cfg g ix :
+  sel_spec (length (s_wts g)) ix = Some [] ->
+  (periodic_empty_ok cfg = false \/ ~ no_lattice g) ->
+  getitem cfg CPeriodic g ix = OErr EValue.
+Proof.
+  intros Hs Hc. unfold getitem, select. destruct ix as [i|i|a b s|li|m]; cbn [sel_spec] in Hs.
+  - destruct (resolve _ i); discriminate.
+  - destruct (resolve _ i); discriminate.
+  - destruct (_ =? 0); [discriminate|]. injection Hs as ->. unfold build. cbn [is_nil andb].
+    destruct Hc as [->|Hc]; [reflexivity|]. unfold no_lattice in Hc.
+    destruct (s_extra g) as [| |[|v L]]; try (exfalso; apply Hc; exact I). cbn [is_nil]. rewrite andb_false_r. reflexivity.
+  - destruct (resolve_all _ li); [|discriminate]. injection Hs as ->. unfold build. cbn [is_nil andb].
+    destruct Hc as [->|Hc]; [reflexivity|]. unfold no_lattice in Hc.
+    destruct (s_extra g) as [| |[|v L]]; try (exfalso; apply Hc; exact I). cbn [is_nil]. rewrite andb_false_r. reflexivity.
+  - destruct (_ || _); [|discriminate]. injection Hs as ->. unfold build. cbn [is_nil andb].
+    destruct Hc as [->|Hc]; [reflexivity|]. unfold no_lattice in Hc.
+    destruct (s_extra g) as [| |[|v L]]; try (exfalso; apply Hc; exact I). cbn [is_nil]. rewrite andb_false_r. reflexivity.
 Qed.
 
 (* ------------------------------------------------------------------ the machine *)
@@ -602,7 +631,7 @@ Qed.
 
 
 (* ------------------------------------------------------------------ witnesses on the pinned behaviours *)
-Ltac flags cfg := destruct cfg as [f1 f2 f3 f4 f5 f6 f7]; cbn in *; subst.
+Ltac flags cfg := destruct cfg as [f1 f2 f3 f4 f5 f6 f7 f8]; cbn in *; subst.
 
 (* empty sphere: Grid([[0,0,0],[1,0,0]]).get_localgrid([10,10,10], r) with r*r < 1 *)
 Definition w_empty_pts : list point := [[0;0;0];[1;0;0]].
@@ -730,3 +759,11 @@ Example ex_atom_inf_refuted := atomgrid_inf_refuted_lemma ball_ref pinned eq_ref
 Example ex_npint_refuted :=
   getitem_npint_refuted_lemma pinned COneD (init pinned COneD true 1 [[0];[5]] [1;2] [] (XDomain 0 5)) (-1) 1%nat
     (or_intror (or_introl eq_refl)) eq_refl eq_refl.
+
+Example ex_periodic_empty_fixed :
+  getitem fixed CPeriodic (init fixed CPeriodic false 2 [[0;0];[1;0]] [1;2] [] (XLattice [])) (ISlice (Some 0) (Some 0) None)
+  = OSel CPeriodic [] [] (XLattice []).
+Proof. reflexivity. Qed.
+Example ex_periodic_empty_refuted :=
+  periodic_empty_refuted_lemma pinned (init pinned CPeriodic false 2 [[0;0];[1;0]] [1;2] [] (XLattice []))
+    (IMask [false; false]) eq_refl (or_introl eq_refl).
